@@ -26,6 +26,8 @@ structure H where
   failAt : Nat
   dialFail : Nat
   abortAt : Nat
+  xclose : Nat
+  short : List Nat
   cut : Option Nat
   qs : Array Q
 
@@ -77,9 +79,9 @@ def parseSched (s : String) : Option (List Act) :=
     | _ => none).map List.flatten
 
 def mkCfg (sync : Bool) (qs : List Q) : Cfg Nat :=
-  -- request k's response is two conn writes of one token each: 2k (head part) and 2k+1 (tail part)
+  -- request k's response is two conn writes: the head token 3k, then the body tokens 3k+1, 3k+2
   { reqs := qs.mapIdx fun i q =>
-      { major := q.major, minor := q.minor, connVals := q.conn, pieces := [[2 * i], [2 * i + 1]] },
+      { major := q.major, minor := q.minor, connVals := q.conn, pieces := [[3 * i], [3 * i + 1, 3 * i + 2]] },
     sync }
 
 /-- the server side of one connection: `Pipeline.run` on the schedule of the K line followed by
@@ -97,20 +99,36 @@ def unchecked : St Nat := { (init : St Nat) with wire := [1000000007] }
 def serve (sync : Bool) (sched : List Act) (qs : List Q) : St Nat :=
   (serve? sync sched qs).getD unchecked
 
-/-- the schedule of the known finding "close drops the backlog": from response `i` on the kernel stops
-    taking bytes (the tail part of response i and everything behind it is queued); the job of the first
-    closing request finishes with the queue non-empty and the close releases it -/
-def serveCut (sync : Bool) (i : Nat) (qs : List Q) : St Nat :=
-  let n := qs.length
+/-- forced schedules, replayed step by step from what the harness did / observed:
+    * `cut = some i` (known finding): from response `i` on the kernel stops taking bytes, nothing is flushed
+      any more, the finish of the first closing request releases the queue;
+    * `short`: requests whose body write was seen to leave a backlog: `write (some 1)` takes the first body
+      token and queues the second, the poller's `flush` delivers it after the job has finished;
+    * `xclose = k+1`: between `start` and the writes of job `k` the connection is closed from outside
+      (`extClose`).
+    The result is used only if it is quiescent (`doneB`, or for `cut` quiescent with the queue released);
+    it is covered by the safety theorems (`c10_wire_prefix`, `c10_nothing_after_close`, `c10_close_cause`,
+    `c10_run_cut_checked`), not by `c10_run_checked`. -/
+def forcedActs (n : Nat) (cut : Option Nat) (short : List Nat) (xclose : Nat) : List Act :=
   let job (k : Nat) : List Act :=
-    if k < i then [.start, .write none, .write none, .finish]
-    else if k == i then [.start, .write none, .write (some 0), .finish]
-    else [.start, .write none, .write none, .finish]
-  run (mkCfg sync qs) init (List.replicate n Act.parse ++ (List.range n).flatMap job)
+    let stalled : Bool := match cut with | some i => decide (k ≥ i) | none => false
+    let w2 : Act := if cut == some k || short.contains k then .write (some 1) else .write none
+    let body : List Act :=
+      if xclose == k + 1 then [.start, .extClose, .write none, .write none, .finish]
+      else [.start, .write none, w2, .finish]
+    if stalled then body else body ++ [.flush 1000000000]
+  List.replicate n Act.parse ++ (List.range n).flatMap job
 
-def answeredIn (s : St Nat) (i : Nat) : Bool := s.wire.contains (2 * i) && s.wire.contains (2 * i + 1)
-def partialIn (s : St Nat) (i : Nat) : Bool := s.wire.contains (2 * i) && !s.wire.contains (2 * i + 1)
-def answeredCount (s : St Nat) : Nat := s.wire.length / 2
+def serveForced? (sync : Bool) (cut : Option Nat) (short : List Nat) (xclose : Nat) (qs : List Q) : Option (St Nat) :=
+  let cfg := mkCfg sync qs
+  let acts := forcedActs qs.length cut short xclose
+  let s := run cfg init acts
+  let quiet := s.next == cfg.reqs.length && s.queue.isEmpty
+  if quiet && s.pending.isEmpty && (cut.isNone || (noExt acts && s.dropped)) then some s else none
+
+def answeredIn (s : St Nat) (i : Nat) : Bool := s.wire.contains (3 * i) && s.wire.contains (3 * i + 2)
+def partialIn (s : St Nat) (i : Nat) : Bool := s.wire.contains (3 * i) && !s.wire.contains (3 * i + 2)
+def answeredCount (s : St Nat) : Nat := s.wire.length / 3
 
 /-- split a history into the connections a reconnecting client (net/http, nbhttp.Client pool) uses:
     a new connection after every request whose close decision is true -/
@@ -131,20 +149,15 @@ def outcome0 (sync : Bool) (h : H) : List String :=
     let qs := if h.abortAt > 0 then qs.take (h.abortAt - 1) else qs
     let lines := fun (s : St Nat) => qs.mapIdx fun i q =>
       if answeredIn s i then
-        answeredLine h.cid q (if 2 * (i + 1) == s.wire.length && s.closed then "1" else "0") "x"
+        answeredLine h.cid q (if 3 * (i + 1) == s.wire.length && s.closed then "1" else "0") "x"
       else if partialIn s i && s.dropped then s!"R {q.rid} bad=truncated cb=x"
       else s!"R {q.rid} none cb=x"
     if h.abortAt > 0 then
       lines (serve sync h.sched qs) ++ (h.qs.toList.drop (h.abortAt - 1)).map fun q => s!"R {q.rid} none cb=x"
     else
-    let s := match h.cut with
-      | some i => serveCut sync i qs
-      | none => serve sync h.sched qs
-    qs.mapIdx fun i q =>
-      if answeredIn s i then
-        answeredLine h.cid q (if 2 * (i + 1) == s.wire.length && s.closed then "1" else "0") "x"
-      else if partialIn s i && s.dropped then s!"R {q.rid} bad=truncated cb=x"
-      else s!"R {q.rid} none cb=x"
+    let forced := h.cut.isSome || !h.short.isEmpty || h.xclose > 0
+    let s := if forced then (serveForced? sync h.cut h.short h.xclose qs).getD unchecked else serve sync h.sched qs
+    lines s
   | "nbc" =>
     -- the first `dialFail` Do calls fail to dial (no connection, `closeWithErrorWithoutLock`); the server
     -- sees the history from the first request that got a connection
@@ -199,8 +212,9 @@ def outcome0 (sync : Bool) (h : H) : List String :=
 def allChecked (sync : Bool) (h : H) : Bool :=
   let qs := h.qs.toList
   match h.kind with
-  | "raw" => h.cut.isSome ||
-      (serve? sync h.sched (if h.abortAt > 0 then qs.take (h.abortAt - 1) else qs)).isSome
+  | "raw" =>
+    if h.cut.isSome || !h.short.isEmpty || h.xclose > 0 then (serveForced? sync h.cut h.short h.xclose qs).isSome
+    else (serve? sync h.sched (if h.abortAt > 0 then qs.take (h.abortAt - 1) else qs)).isSome
   | "nbc" => (serve? sync h.sched (qs.drop (min h.dialFail qs.length))).isSome
   | "nbx" => (serve? sync h.sched (qs.drop (min h.failAt qs.length + 1))).isSome
   | "std" | "nbcli" =>
@@ -334,8 +348,11 @@ partial def loop (h : IO.FS.Stream) (s : DS) : IO Unit := do
         let cut := (Drv.field ws "cut").bind String.toNat?
         let dialFail := ((Drv.field ws "dialfail").bind String.toNat?).getD 0
         let abortAt := ((Drv.field ws "abort").bind String.toNat?).getD 0
+        let xclose := ((Drv.field ws "xclose").bind String.toNat?).getD 0
+        -- observed backlogs "rid:left,…": the request indices (rid = index in these histories)
+        let short := (((Drv.field ws "short").getD "").splitOn ",").filterMap fun t => ((t.splitOn ":").head?).bind String.toNat?
         IO.println "ok"
-        loop h { s with cur := some { cid, kind, sched, got, lost, failAt, dialFail, abortAt, cut, qs := #[] } }
+        loop h { s with cur := some { cid, kind, sched, got, lost, failAt, dialFail, abortAt, xclose, short, cut, qs := #[] } }
       else
         IO.println "bad-op"
         loop h s
